@@ -340,7 +340,15 @@ def main():
     ap.add_argument('--tier', default=os.environ.get('VERIF_TIER', 'quick'), choices=['quick', 'thorough'])
     ap.add_argument('--repo', default=os.environ.get('VERIF_REPO', '/repo'))
     ap.add_argument('--keep', action='store_true')
+    ap.add_argument('--replay')
     a = ap.parse_args()
+    if a.replay:
+        rp = json.load(open(a.replay))
+        print('replay of %s (recorded at repo %s%s)' % (a.replay, rp['repo']['head'][:12], ', dirty' if rp['repo']['dirty'] else ''))
+        for o in rp['failed_obligations']:
+            print('  obligation: unit=%s fn=%s %s :: %s' % (o['unit'], o['function'], o['message'], ' | '.join(o['obligation'])[:300]))
+        if rp.get('failing_input'): print('  failing input: %s' % json.dumps(rp['failing_input'])[:2000])
+        print('re-running the obligations on the current tree ...')
     prop = a.prop
     seed = int(os.environ.get('VERIF_SEED', '0') or 0)
     t0 = time.time()
@@ -380,7 +388,7 @@ def main():
             def bkey(b): return (b['owner'] + '::' + b['name']) if b['kind'] == 'FN' else b['name']
             allkeys = {bkey(b) for b in r.get('blocks', []) if b['kind'] in ('FN', 'STATIC')}
             for b in r.get('blocks', []):
-                if b['kind'] in ('FN', 'STATIC') and prop in b['tags']:
+                if b['kind'] in ('FN', 'STATIC') and prop in b.get('all_tags', b['tags']):
                     tagged[bkey(b)] = b
             failed_fns = {d['fn'] for d in r['diags'] if prop in d['tags']} | {(d['fn'] or '').split('::')[-1] for d in r['diags'] if prop in d['tags'] and (d['fn'] or '').startswith('-::')}
             for f in r.get('functions', []):
